@@ -642,9 +642,29 @@ func (w *afWorld) step(st *afStep) M {
 	out["bodyHead"] = bs
 	// oracles
 	ora := M{}
-	ru := q.Get("redirect_uri")
-	if ru == "" {
-		ru = form.Get("redirect_uri")
+	// what net/http's ParseForm hands the handlers (urlencoded POST body first, then the query string) — the library, not sso
+	rdForm := url.Values{}
+	if pr, err := http.NewRequest(st.Method, "http://h/?"+q.Encode(), strings.NewReader(body)); err == nil {
+		if st.Method == "POST" {
+			pr.Header.Set("Content-Type", "application/x-www-form-urlencoded")
+		}
+		if pr.ParseForm() == nil {
+			rdForm = pr.Form
+		}
+	}
+	ru := rdForm.Get("redirect_uri")
+	{
+		rsig, rts := rdForm.Get("sig"), rdForm.Get("ts")
+		tsi, tsErr := strconv.ParseInt(rts, 10, 64)
+		ora["read"] = M{"redirect_uri": ru, "sig": rsig, "ts": rts, "tsParses": tsErr == nil, "age": now.Unix() - tsi,
+			"macOK": tsErr == nil && rsig != "" && func() bool {
+				rs, err := base64.URLEncoding.DecodeString(rsig)
+				if err != nil {
+					return false
+				}
+				ls, _ := base64.URLEncoding.DecodeString(afSig(afProxySecret, ru, strconv.FormatInt(tsi, 10)))
+				return hmac.Equal(rs, ls)
+			}()}
 	}
 	dom := []string{}
 	for _, d := range w.c.Roots {
@@ -673,10 +693,7 @@ func (w *afWorld) step(st *afStep) M {
 		}
 	}
 	if st.Sign != nil || ru != "" {
-		sigv, tsv := q.Get("sig"), q.Get("ts")
-		if sigv == "" {
-			sigv, tsv = form.Get("sig"), form.Get("ts")
-		}
+		sigv, tsv := rdForm.Get("sig"), rdForm.Get("ts")
 		ora["sigOK"] = auth.VerifValidSignature(ru, sigv, tsv, afProxySecret)
 	}
 	lower := M{}
